@@ -40,6 +40,9 @@ def run(ctx):
     lossless_bool_subpackets(ctx, P)
     opaque_layout(ctx, P)
     version_named_dispatch(ctx, P)
+    incremental_header_adjustments(ctx, P)
+    from rules import casts
+    casts.r_cast(ctx, P, only=casts.SERIALISERS, floor=12)
     dispatch(ctx, P)
     # packet / subpacket length encoders and decoders are mutually inverse partitions (shared with C17)
     from rules import c17
@@ -423,6 +426,40 @@ def version_named_dispatch(ctx, P):
     missing = [x for x in VERSION_DISPATCH_REQUIRED if x not in seen]
     ctx.check(P + ':S05-12:parse-side-dispatch-complete', 'R-sib', 'every version dispatch of the parsers still selects the constructor of that version (reference table of %d dispatches)' % len(VERSION_DISPATCH_REQUIRED),
               not missing, missing=['%s: %s not used in the %s::%s arm' % x for x in missing] or None)
+
+
+def incremental_header_adjustments(ctx, P):
+    """A mutator that adjusts the stored packet length by the encoded size of the element it adds or removes is right only where
+    the serialiser writes that element.  The signature serialiser dispatches on the version; a version writer that never reads the
+    mutated field (v2/v3 signatures have no subpacket areas) writes nothing for it, so the mutator must refuse those versions —
+    otherwise packet_header() announces octets that are never written."""
+    import json
+    writers = {p: r for p, r in ctx.f.bodies.items() if re.search(r'packet::signature::config::SignatureConfig::to_writer_v[\d_v]+$', p)}
+    if len(writers) < 2:
+        ctx.missing(P + ':S05-13:writers', 'version writers of SignatureConfig not found')
+        return
+    n = 0
+    for p, r in sorted(ctx.f.bodies.items()):
+        if not p.startswith('packet::signature::types::Signature::') or r['kind'] == 'Closure' or r.get('derived'):
+            continue
+        b = ctx.wrap(r)
+        hdr = [i for i, t in b.calls(r'PacketHeader::packet_length_mut$')]
+        if not hdr:
+            ctx.functions.discard(p)
+            continue
+        for i, t in b.calls(r'Vec::<T, A>::(insert|remove|push|pop|truncate|clear|retain)$'):
+            og = b.operand_origins(t['args'][0])
+            flds = sorted(set(m.group(1) for x in og for m in [re.match(r'field:SignatureConfig\.(\w+)$', x)] if m))
+            for fld in flds:
+                n += 1
+                blind = sorted(w.split('::')[-1] for w, wr in writers.items() if ('.%s"' % fld) not in json.dumps(wr['blocks']))
+                gs = guard_switches(b, [i], [r'call:.*SignatureConfig::version$|call:.*Signature::version$|field:SignatureConfig\.version_specific$'])
+                ok = (not blind) or (bool(gs) and must_pass(b, [i], [g for g, _ in gs])[0])
+                ctx.check('%s:S05-13:adjusts-only-what-is-written:%s:%s' % (P, p, fld), 'R-sib',
+                          '%s adjusts the stored packet length for a change of %s only for versions whose writer emits that field' % (p.split('::')[-1], fld),
+                          ok, function=p, site=site(b, i), guards=[site(b, g) for g, _ in gs],
+                          missing=None if ok else '%s never writes %s, and the mutator does not refuse that version' % (', '.join(blind), fld))
+    ctx.floor(P + ':S05-13:floor', 'signature mutators that adjust the stored length incrementally', n, 2)
 
 
 def stored_length_encoding(ctx, P):
